@@ -45,8 +45,11 @@ FrozenAt == 3
 O(to, amt) == [to |-> to, amt |-> amt, fz |-> 0]
 OF(to, amt, fz) == [to |-> to, amt |-> amt, fz |-> fz]
 NoKV == [k \in Keys |-> NoRd]
-Tok(ins, outs) == [ins |-> ins, outs |-> outs, reads |-> NoKV, writes |-> NoKV]
-KV(reads, writes) == [ins |-> {}, outs |-> <<>>, reads |-> reads, writes |-> writes]
+(* bad: "" = honest; "amount" = every input cites one unit less than the output it spends really holds (outputs sum
+   to the cited total): such a transaction is never current (CheckInputEqualOutput compares cited and stored amount) *)
+Tok(ins, outs) == [ins |-> ins, outs |-> outs, reads |-> NoKV, writes |-> NoKV, bad |-> ""]
+TokBad(ins, outs, bad) == [ins |-> ins, outs |-> outs, reads |-> NoKV, writes |-> NoKV, bad |-> bad]
+KV(reads, writes) == [ins |-> {}, outs |-> <<>>, reads |-> reads, writes |-> writes, bad |-> ""]
 R1(v) == [k \in Keys |-> IF k = "k1" THEN v ELSE NoRd]
 R2(v) == [k \in Keys |-> IF k = "k2" THEN v ELSE NoRd]
 TX == [
@@ -64,7 +67,10 @@ TX == [
   p5 |-> KV(R1("p1"), NoKV),                                          \* read without write
   p6 |-> KV(R2(None), R2(Del)),                                       \* delete of a never-written key
   p7 |-> KV(R2(None), R2("w1")),                                      \* create k2 (conflicts with p6)
-  p8 |-> KV([k \in Keys |-> IF k = "k1" THEN "p2" ELSE "p7"], R2("w2"))  \* reads two keys, writes one
+  p8 |-> KV([k \in Keys |-> IF k = "k1" THEN "p2" ELSE "p7"], R2("w2")),  \* reads two keys, writes one
+  p9 |-> KV([k \in Keys |-> None], [k \in Keys |-> IF k = "k1" THEN "x1" ELSE "x2"]),   \* creates both keys (k2 is its 2nd write)
+  p10 |-> KV(R2("p9"), R2("x3")),                                      \* overwrites k2 (written at another offset by p9)
+  w1 |-> TokBad({<<"g", 0>>}, <<O("c", 10)>>, "amount")               \* cites 9 for g.0, which holds 10 (outputs = what it really holds)
 ]
 AllTxs == DOMAIN TX
 Txs == ActiveTxs
@@ -103,7 +109,7 @@ InUtxo(s, i) == \E u \in s.utxo : u.t = i[1] /\ u.o = i[2]
 UtxoOf(s, i) == CHOOSE u \in s.utxo : u.t = i[1] /\ u.o = i[2]
 
 (* input currency, as CheckInputEqualOutput + xmodel.verifyInputs see it; lh = ledger trunk height *)
-TokenOK(s, t, lh) == \A i \in TX[t].ins : InUtxo(s, i) /\ UtxoOf(s, i).fz <= lh
+TokenOK(s, t, lh) == TX[t].bad = "" /\ \A i \in TX[t].ins : InUtxo(s, i) /\ UtxoOf(s, i).fz <= lh
 ReadsOK(s, t) == \A k \in Keys : TX[t].reads[k] # NoRd => Cur(s, k) = TX[t].reads[k]
 Valid(s, t, lh) == TokenOK(s, t, lh) /\ ReadsOK(s, t)
 
@@ -191,9 +197,14 @@ Log(e) == hist' = Append(hist, e)
 (* Precondition (quantifier of C03 / C13): a transaction that is already confirmed on the pointer's chain or on the
    ledger's main chain is not submitted again (the engine's SubmitTx keeps a txid cache and, on chains with fees,
    every transaction consumes token inputs, so such a re-submission is refused as stale anyway). *)
-Submit(t) ==
+(* obsres: the result class observed on the real node (trace validation) or "*".  R2: a refusal for a reason that has
+   nothing to do with input currency (class "other": tightened unrelated validation) is always allowed and changes
+   nothing; what the property constrains is admission of a non-current transaction and refusal *as stale* of a
+   current one. *)
+Submit(t, obsres) ==
   /\ t \in Txs /\ ~OnChain(t, ptr) /\ ~Confirmed(t)
-  /\ IF t \in pool THEN UNCHANGED <<utxo, zu, zd, total, pool>> /\ Log([op |-> "submit", t |-> t, res |-> "stale"])
+  /\ IF obsres = "other" THEN UNCHANGED <<utxo, zu, zd, total, pool>> /\ Log([op |-> "submit", t |-> t, res |-> "other"])
+     ELSE IF t \in pool THEN UNCHANGED <<utxo, zu, zd, total, pool>> /\ Log([op |-> "submit", t |-> t, res |-> "stale"])
      ELSE IF Valid(St, t, LHeight) THEN Set(Apply(St, t)) /\ pool' = pool \cup {t} /\ Log([op |-> "submit", t |-> t, res |-> "admit"])
      ELSE UNCHANGED <<utxo, zu, zd, total, pool>> /\ Log([op |-> "submit", t |-> t, res |-> "stale"])
   /\ UNCHANGED <<blk, n, ltip, ptr, irr, dev, applied, pruned>>
@@ -437,7 +448,7 @@ Restart == UNCHANGED <<blk, n, ltip, ptr, utxo, zu, zd, total, irr, pool, dev, a
 
 Next ==
   /\ Len(hist) < MaxOps
-  /\ \/ \E t \in Txs : Submit(t)
+  /\ \/ \E t \in Txs : Submit(t, "*")
      \/ \E p \in 1..n, seq \in TxSeqs : MkBlock(p, seq)
      \/ \E b \in 2..n : Play(b, "*")
      \/ Mine(GoodOrder(Packable))
